@@ -22,6 +22,7 @@ RULE = ('one evaluation = one seeded sequence of 15-150 backend calls (add, get,
         'versions {default,1,2,3} x timeouts {DEFAULT, None, 0, -1, 1, 2.5, 100} with clock steps {0 .. 301 s} (exact ties reachable), '
         'for backend TIMEOUT in {300, None, 5, 0, 2.5} x KEY_PREFIX x VERSION x SHARDS x KEY_FUNCTION (default, or one that prefixes a tenant switched between calls); every result and exception class is compared '
         'with ModelDjango; non-trivial = at least 10 calls; distinct = SHA-256 of (parameters, program)')
+RULE += ' ' + 'Values include str / int subclasses and bools, compared by type.'
 ASSUMPTIONS = ['outcomes the contract leaves open are accepted either way: return value of set/clear/set_many success, delete() of an expired key',
                'live <=> expire_time > now (zero or negative timeout means already expired)']
 PROBES = ('expired_lookups', 'version_ops', 'tie_instant_reached')
